@@ -63,8 +63,13 @@ static int create_ux(struct xcm_socket *s)
 	.sun_family = AF_UNIX
     };
 
-    ctl_derive_path(ctl_dir, getpid(), s->sock_id,
-		    addr.sun_path, UNIX_PATH_MAX);
+    if (ctl_derive_path(ctl_dir, getpid(), s->sock_id,
+			addr.sun_path, UNIX_PATH_MAX) < 0) {
+	/* the directory's name leaves no room for the file name: this
+	   socket goes without a control interface */
+	LOG_CTL_CREATE_FAILED(s, ctl_dir, errno);
+	return -1;
+    }
 
     unlink(addr.sun_path);
 
